@@ -259,7 +259,7 @@ def _worker(arg):
 
 def main():
     tier = os.environ.get("VERIF_TIER", "quick")
-    depth = int(os.environ.get("SESSION_DEPTH", "4" if tier == "quick" else "6"))
+    depth = int(os.environ.get("SESSION_DEPTH", "5" if tier == "quick" else "6"))
     t0 = time.time()
     ids = [1, 2]
     big = [2147483647, 2147483646]
